@@ -33,6 +33,24 @@ func genC12(r *rng, thorough bool) {
 			emit([]string{"cut", "-o", "-r", "-f", rx}, st)
 			emit([]string{"cut", "-x", "-r", "-f", rx}, st)
 		}
+		// field names containing the characters grouping keys are joined with
+		var cn []record
+		for j := r.intn(6); j > 0; j-- {
+			var rec record
+			seen := map[string]bool{}
+			for k := 1 + r.intn(3); k > 0; k-- {
+				nm := r.pick([]string{"a,b", "c", "a", "b,c", "c,", "q\\", "q", ",", "\\,"})
+				if !seen[nm] {
+					seen[nm] = true
+					rec = append(rec, field{nm, r.pick([]string{"1", "2", "pan"})})
+				}
+			}
+			cn = append(cn, rec)
+		}
+		emit([]string{"regularize"}, cn)
+		emit([]string{"group-like"}, cn)
+		emit([]string{"sort-within-records"}, cn)
+		emit([]string{"unsparsify"}, cn)
 		emit([]string{"cut", "-f", f}, rs)
 		emit([]string{"cut", "-o", "-f", f}, rs)
 		emit([]string{"cut", "-x", "-f", f}, rs)
